@@ -184,3 +184,12 @@ Section Wrappers.
   Lemma g_wrapping_neg_eq : g_wrapping_neg bits (nlimbs bits) a = Val (wrapping_neg bits a).
   Proof. unfold g_wrapping_neg, wrapping_neg. rewrite g_overflowing_neg_eq by assumption. reflexivity. Qed.
 End Wrappers.
+
+(* abs_diff: `self < other` is core's PartialOrd::lt over partial_cmp = Some(cmp), cmp = algorithms::cmp *)
+Lemma g_abs_diff_eq bits a b :
+  0 <= bits -> nlimbs bits <= B -> length a = nlimbsN bits -> length b = nlimbsN bits ->
+  g_abs_diff bits (nlimbs bits) a b = Val (abs_diff bits a b).
+Proof.
+  intros H0 HB Ha Hb. unfold g_abs_diff, abs_diff, g_cmp, ult.
+  destruct (limbs_cmp a b); cbn [obind]; rewrite g_wrapping_sub_eq by assumption; reflexivity.
+Qed.
